@@ -267,6 +267,42 @@ impl C15 {
                 }
             }
         }
+        // locking a deposit into a NEW position for somebody else (no position named): only the
+        // receiver themselves may do that through the pool manager
+        for pool in obs.pools.iter().filter(|p| !p.total_share.amount.is_zero() && p.pool_info.assets.iter().all(|x| !x.amount.is_zero())).take(2) {
+            let pi = &pool.pool_info;
+            let mut all: Vec<Coin> = pi.assets.iter().map(|x| coin((x.amount.u128() / 1000).max(1), x.denom.clone())).collect();
+            all.sort_by(|x, y| x.denom.cmp(&y.denom));
+            let mut variants: Vec<(String, Vec<Coin>)> = vec![("all".into(), all)];
+            if pi.assets.len() == 2 {
+                let a0 = &pi.assets[0];
+                variants.push(("single".into(), vec![coin((a0.amount.u128() / 500).max(2) & !1u128, a0.denom.clone())]));
+            }
+            for rc in [a.users[0].to_string(), a.stranger.to_string()] {
+                for (vn, funds) in variants.iter() {
+                    for (dn, d) in [("", 86_400u64), (".zero", 0u64)] {
+                        let (pid2, funds2, rc2) = (pi.pool_identifier.clone(), funds.clone(), rc.clone());
+                        cells.push((
+                            format!("pm.lock_new_{vn}{dn}.recv_owner.{}.{}", pi.pool_identifier, a.name(&rc)),
+                            Box::new(move |s, _| Op::Pm {
+                                sender: s.to_string(),
+                                msg: PmMsg::ProvideLiquidity {
+                                    liquidity_max_slippage: None,
+                                    swap_max_slippage: Some(Decimal::percent(50)),
+                                    receiver: Some(rc2.clone()),
+                                    pool_identifier: pid2.clone(),
+                                    unlocking_duration: Some(d),
+                                    lock_position_identifier: None,
+                                },
+                                funds: funds2.clone(),
+                            }),
+                            Rule::PositionOwner(rc.clone()),
+                            true,
+                        ));
+                    }
+                }
+            }
+        }
         // ---- roles
         let mut roles: BTreeSet<String> = BTreeSet::new();
         for x in [&a.owner, &a.owner2, &a.stranger, &a.pm, &a.fm] {
